@@ -102,6 +102,31 @@ impl Prop for C05 {
             ));
         }
         f.push(Family::new(
+            "grouped-percentages",
+            Mode::Full,
+            "percentages of 1000 and more written with the thousands separator and without a fraction ('1.000%', '%2.500', '-1.000%', '1.000.000%', also '1.234,5%'): the 8 phrase forms over X in [200, 0,5, 80 eur, $40] x both percent spellings",
+            move |ch| {
+                let (pt0, pv) = *ch.pick(&[("1.000", 1000.0), ("2.500", 2500.0), ("-1.000", -1000.0), ("1.000.000", 1e6), ("1.234,5", 1234.5)]);
+                let pt = if ch.flag() { format!("%{}", pt0) } else { format!("{}%", pt0) };
+                let (xt, xv, cur) = *ch.pick(&[("200", 200.0, None), ("0,5", 0.5, None), ("80 eur", 80.0, Some("EUR")), ("$40", 40.0, Some("USD"))]);
+                let val = |v: f64| match cur {
+                    Some(c) => Val::Money(v, c.to_string()),
+                    None => Val::Number(v, Base::Dec),
+                };
+                let (line, want) = match ch.choose(8) {
+                    0 => (format!("{} + {}", xt, pt), xv + xv / 100.0 * pv),
+                    1 => (format!("{} - {}", xt, pt), xv - xv / 100.0 * pv),
+                    2 => (format!("{} of {}", pt, xt), xv * pv / 100.0),
+                    3 => (format!("{} of {}", xt, pt), xv * pv / 100.0),
+                    4 => (format!("{} on {}", pt, xt), xv * (1.0 + pv / 100.0)),
+                    5 => (format!("{} on {}", xt, pt), xv * (1.0 + pv / 100.0)),
+                    6 => (format!("{} off {}", pt, xt), xv * (1.0 - pv / 100.0)),
+                    _ => (format!("{} off {}", xt, pt), xv * (1.0 - pv / 100.0)),
+                };
+                Some(LineCase::new(line, Expect::Value(val(want), 1e-9), "grouped-percentages"))
+            },
+        ));
+        f.push(Family::new(
             "suffixed-money",
             Mode::Full,
             "the 8 phrase forms and 'A is p% of what' / 'A is what % of B' with X (A, B) a money literal that carries a magnitude suffix: '2k <code>', '1,5M <code>', '<symbol>2k', '2k <symbol>' over the codes [usd, try, eur] (rated) and [kwd, cad, aed] (no configured rate; a percentage of an amount needs none) x p in [10, 12,5, 150] x both percent spellings",
